@@ -189,6 +189,15 @@ def iss_predicate(op_fields, impl):
         out.append("notAfter exceeds the role's not_after_bound timestamp")
     if nab == "forbid" and rna == "-" and kv["qna"] != "-":
         out.append("a requested not_after was honoured under not_after_bound=forbid")
+    # start of the validity: a role-pinned not_before is the certificate's NotBefore on every endpoint that applies the role;
+    # an inverted validity is never issued
+    nb = int(rec["nb"])
+    if role_applies and ep != "verbatim" and kv.get("rnb", "-") != "-" and nb != int(kv["rnb"]):
+        out.append({"what": "the role pins not_before to %s but the certificate made by %s starts at %d (relative to now)" % (kv["rnb"], ep, nb),
+                    "signature": "role-not-before-ignored"})
+    if nb > na:      # whole seconds: equal instants are a one-second validity (both ends inclusive), not an inverted one
+        out.append({"what": "certificate with an inverted validity (notBefore %d, notAfter %d)" % (nb, na),
+                    "signature": "validity-inverted"})
     if int(kv["rttl"]) > 0 and (rna != "-" or kv["qna"] != "-"):
         out.append("ttl and not_after were both given and the request was not refused")
     # key type / size
